@@ -141,9 +141,8 @@ func entriesFromTar(es []TarEntry, where string, p *Pkg) []Entry {
 }
 
 func stampTar(p *Pkg, where string, e *TarEntry) {
-	if !e.ModTime.IsZero() && e.ModTime.Unix() != 0 {
-		p.Stamps = append(p.Stamps, Stamp{where + ":" + e.Name + ":mtime", e.ModTime.Unix()})
-	}
+	// a tar header always carries an mtime: 0 is 1970-01-01, not "no timestamp"
+	p.Stamps = append(p.Stamps, Stamp{where + ":" + e.Name + ":mtime", e.ModTime.Unix()})
 	if !e.ATime.IsZero() {
 		p.Stamps = append(p.Stamps, Stamp{where + ":" + e.Name + ":atime", e.ATime.Unix()})
 	}
